@@ -59,6 +59,10 @@ def stepLine (st : St) (line : String) : St × List String :=
     match restart st.s with
     | some s' => ({ st with s := s' }, ["ok"])
     | none => ({ st with dead := true }, ["initerr"])
+  | ["crash"] =>
+    match crashRestart st.s with
+    | some s' => ({ st with s := s' }, ["ok"])
+    | none => ({ st with dead := true }, ["initerr"])
   | ["report"] => (st, reportLines st)
   | _ => (st, [])
 
@@ -141,6 +145,9 @@ def judgeLine (j : J) (op : String) (outs : List String) : J × List String :=
           | none => (j, if out == "ok" then [vio j "sess:invalid-statement-accepted" s!"op=[{short}]"] else [])
     | _ => (j, [])
   | ["restart"] => if out == "ok" then ({ j with cur := none }, []) else ({ j with stopped := true }, [vio j s!"sess:restart-failed:{out}" ""])
+  -- the process dies between two statements: every acknowledged statement of every database is in its log
+  -- and must be there after start-up recovery, whichever database the directory lists first
+  | ["crash"] => if out == "ok" then ({ j with cur := none }, []) else ({ j with stopped := true }, [vio j s!"sess:recovery-failed:{out}" ""])
   | ["report"] =>
     let wantDbs := ("dbs " ++ " ".intercalate ((j.dbs.foldl (fun acc p => insertSorted p.1 acc) []).map fun n => hexOrDash n.toUTF8.toList)).trimAscii.toString
     let v0 := if out == wantDbs then [] else [vio j "sess:databases-differ" s!"want=[{wantDbs}] got=[{out}]"]
